@@ -25,7 +25,7 @@ def make_replay(prop, name, recs, baseline):
         "baseline_verdict": was,
         "note": "discharged on the unchanged tree and refuted now" if was == "unsat" else "no baseline verdict recorded",
         "failing_paths": [
-            {k: r.get(k) for k in ("path", "variant", "verdict", "backend", "model", "model_text", "seconds")} for r in recs
+            {k: r.get(k) for k in ("path", "variant", "verdict", "backend", "model", "model_text", "seconds", "reason")} for r in recs
         ],
     }
     try:
